@@ -168,6 +168,36 @@ feature tst2 {
               ("DFLT", ["c", "acute", "d"]), ("DFLT", ["c", "grave", "d"]), ("latn", ["f", "acute", "i", "f", "i"]), ("latn", ["f", "grave", "i"])]
         prog = {"fea": fea.lstrip("\n"), "model": m, "kinds": ["fixed:" + name]}
         return prog, [("fixed", seq, {"tst1": 1, "tst2": 1}, sc, "dflt") for sc, seq in tt]
+    elif name == "vertical-values":
+        # inside vkrn / vpal / vhal / valt a bare number is a YAdvance; a format A record named at
+        # file level stays an XAdvance wherever it is referenced (and must be printed so)
+        fea = """
+valueRecordDef 30 ADV;
+valueRecordDef <1 2 3 4> FULL;
+feature vkrn {
+    pos a <ADV>;
+    pos b 20;
+    pos c d <ADV>;
+    pos e f 15;
+    pos g <FULL>;
+} vkrn;
+feature vpal {
+    pos a' <ADV> b;
+    pos h 12;
+} vpal;
+feature tst1 {
+    pos a <ADV>;
+    pos b 20;
+} tst1;
+"""
+        sp = lambda d: {"kind": "spos", "flag": {}, "values": d}
+        pp = {"kind": "ppos", "flag": {}, "pairs": [("c", "d", (0, 0, 30, 0), None), ("e", "f", (0, 0, 0, 15), None)], "classes": []}
+        cp = {"kind": "cpos", "flag": {}, "subtables": [[{"back": [], "input": [["a"]], "ahead": [["b"]], "lookups": [[sp({"a": (0, 0, 30, 0)})]]}]]}
+        m = _model([], [sp({"a": (0, 0, 30, 0), "b": (0, 0, 0, 20)}), pp, sp({"g": (1, 2, 3, 4)}), cp, sp({"h": (0, 0, 0, 12)}),
+                        sp({"a": (0, 0, 30, 0), "b": (0, 0, 20, 0)})],
+                   {"vkrn": {"GPOS": [0, 1, 2]}, "vpal": {"GPOS": [3, 4]}, "tst1": {"GPOS": [5]}})
+        t = [(["a", "b", "g"], on("vkrn")), (["c", "d", "e", "f"], on("vkrn")), (["a", "b", "h"], on("vpal")), (["a", "b"], on("tst1")),
+             (["a", "b", "c", "d"], on("vkrn", "vpal", "tst1"))]
     elif name == "pair-subtables":
         fea = """
 feature tst1 {
